@@ -13,6 +13,12 @@ ETERNAL = -1
 async def verif_request(es, params):
     resp = await es.perform_request(method="GET", path=params["path"])
     res = {"weight": 1, "unit": "ops", "vid": resp["vid"]}
+    if resp.get("deps"):
+        # a composite-like request: one dependent sub-request timing per entry (what runner.Composite reports)
+        res["dependent_timing"] = [
+            {"dependent_timing": {"absolute_time": resp["t"], "request_start": resp["t"], "service_time": 0.001 * (k + 1), "operation": "dep-op", "operation-type": "dep-type"}, "dep": k}
+            for k in range(resp["deps"])
+        ]
     return res
 
 
@@ -93,6 +99,8 @@ class TracedRace:
             t.operation.type = "verif-request"
             t.operation.param_source = "verif-src"
         self.vid_info = {}  # vid -> (c, col, n)
+        self.deps = {}  # sample id -> number of dependent sub-request timings its request reported
+        self.downsample = downsample
         self.completed = {}  # (c, tid) -> completed requests
         self.produced = []
         self.dropped = []
@@ -346,7 +354,9 @@ class TracedRace:
         self.completed[(c, tid)] = n
         self.produced.append(sid)
         wi = self.scn["workerOf"][c]
-        w.step(("req", c), service_time=service_time, outcome={"vid": req["n"]})
+        deps = 2 if req["n"] % 3 == 0 else 0
+        self.deps[sid] = deps
+        w.step(("req", c), service_time=service_time, outcome={"vid": req["n"], "deps": deps, "t": w.clock.time()})
         inst = self.worker(wi)
         inq = inst.sampler is not None and any(s.request_meta_data.get("vid") == req["n"] for s in list(inst.sampler.q.queue))
         if not inq:
@@ -615,21 +625,33 @@ class TracedRace:
                         tid = t
                 except tlc.MachineryError:
                     pass
+            main = [d for d in ds if d.get("operation") != "dep-op"]
+            dep = [d for d in ds if d.get("operation") == "dep-op"]
             meta_ok = all(
                 d.get("task") == "t%d" % tid and d.get("operation") == "op%d" % tid and d.get("sample-type") == "normal" and d.get("meta", {}).get("client_id") == c and d.get("operation-type") == "verif-request"
-                for d in ds
-            )
+                for d in main
+            ) and all(d.get("task") == "t%d" % tid and d.get("name") == "service_time" and d.get("operation-type") == "dep-type" and d.get("sample-type") == "normal" and d.get("meta", {}).get("client_id") == c for d in dep)
             rows.append(
                 {
                     "sid": list(sid),
                     "dropped": sid in dropped,
-                    "lat": sum(1 for d in ds if d["name"] == "latency"),
-                    "svc": sum(1 for d in ds if d["name"] == "service_time"),
-                    "proc": sum(1 for d in ds if d["name"] == "processing_time"),
+                    "lat": sum(1 for d in main if d["name"] == "latency"),
+                    "svc": sum(1 for d in main if d["name"] == "service_time"),
+                    "proc": sum(1 for d in main if d["name"] == "processing_time"),
+                    "deps": self.deps.get(sid, 0),
+                    "dsvc": len(dep),
                     "metaOk": bool(meta_ok),
                 }
             )
         return rows
+
+    def throughput_docs(self):
+        """Throughput records at race control (task, sample type, value, time) - must not depend on downsampling."""
+        res = []
+        for d in self.w.coordinator().metrics_store.docs:
+            if d.get("name") == "throughput":
+                res.append((d.get("task"), d.get("sample-type"), repr(d.get("value")), d.get("@timestamp"), d.get("unit")))
+        return sorted(res)
 
     def trace(self, tid):
         if self.events:
@@ -645,7 +667,7 @@ class TracedRace:
                 }
         for e in self.events:
             e.setdefault("last", False)
-        return {"id": tid, "scn": self.scn, "init": self.init, "events": self.events}
+        return {"id": tid, "scn": self.scn, "init": self.init, "events": self.events, "thr": [[str(x) for x in d] for d in self.throughput_docs()] if self.done() else []}
 
     def close(self):
         self.w.close()
